@@ -234,7 +234,26 @@ func lifecycle(m method, rpcPort int, magnet bool) (calls int64, reached string)
 	stop := make(chan struct{})
 	var wg sync.WaitGroup
 	var ncalls int64
-	wg.Add(2)
+	// registry churn: another client adds and removes a second torrent all the time, so that every call also
+	// runs against writes to the session's registry (torrent map, port set, resume database)
+	l3 := lab.LayoutSingle(32768, 20000)
+	l3.Name = "churn"
+	g3 := lab.Gen(l3)
+	wg.Add(3)
+	go func() {
+		defer wg.Done()
+		for {
+			select {
+			case <-stop:
+				return
+			case <-time.After(5 * time.Millisecond):
+			}
+			if _, err := s.AddTorrent(bytes.NewReader(g3.MetaInfo), &torrent.AddTorrentOptions{ID: "churn", Stopped: true}); err == nil {
+				time.Sleep(2 * time.Millisecond)
+				s.RemoveTorrent("churn", false)
+			}
+		}
+	}()
 	go func() {
 		defer wg.Done()
 		for {
@@ -362,7 +381,7 @@ func TestC20Race(t *testing.T) {
 	}
 	rep := core.NewReport("C20", "racepass", "other")
 	rep.Explanation = "free-running -race build (Go race detector = vector-clock happens-before analysis); one scenario per public API / RPC method: real event loops run a full torrent lifecycle (add, allocate, download from an in-memory seed, complete, stop, start, verify, remove) while a second goroutine calls the method in a loop and a third writes resume data; a report is keyed by the two access sites. The scenario set (method x lifecycle) is enumerated completely; each scenario is one free execution."
-	rep.Rule = "scenarios = public API / RPC methods; non-trivial = the probed method was called at least 20 times while the torrent was transferring"
+	rep.Rule = "scenarios = public API / RPC methods, each called in a loop while one torrent goes through its whole lifecycle (add, start, download from a scripted seed, seed, stop, start, verify), the periodic resume write runs every 20 ms and another client keeps adding and removing a second torrent (registry churn); non-trivial = the probed method was called at least 20 times while the torrent was transferring"
 	rep.Assumptions = []string{"the race detector reports races between accesses that actually execute in the scenario; schedules are not enumerated here (that is the threadlab part)", "DNS: only 'localhost' is resolved"}
 	if !core.Thorough() {
 		// quick: every other method (the full set is the thorough tier); getters that are known to be interesting are kept
